@@ -190,19 +190,32 @@ theorem indexOfSortedAfter_spec (h : Built k strs l) (hn : NulFree strs) (hlen :
           rw [hxe] at hle
           exact hle hg
 
-/-- `index_of_sorted` on a sorted list, NUL-free key -/
+/-- `index_of_sorted` on a sorted list, any key: a key containing NUL is answered `None`
+up front (it cannot be stored: `NulFree`), every other key goes through the binary search -/
 theorem indexOfSorted_spec (h : Built k strs l) (hn : NulFree strs) (hlen : LenOK strs)
-    (hs : Sorted strs) (key : List Nat) (hkey : 0 ∉ key) :
+    (hs : Sorted strs) (key : List Nat) :
     ∃ o, indexOfSorted l key = .ok o ∧
       (∀ i, o = some i → ∃ hi : i < strs.length, strs[i] = key) ∧
       (o = none → key ∉ strs) := by
-  obtain ⟨r, hr1, hr2⟩ := binarySearchBy_spec (headCmp l key) l.pointers (headOrd k strs key)
-    (fun i hi => headCmp_spec h hn key hkey i hi) (headOrd_mono h hs key)
-  rw [indexOfSorted, hr1]
-  exact indexOfSortedAfter_spec h hn hlen hs key r hr2
+  rw [indexOfSorted]
+  by_cases hc : key.contains 0 = true
+  · rw [if_pos hc]
+    refine ⟨none, rfl, fun i hi => (by cases hi), fun _ hmem => ?_⟩
+    exact hn key hmem (List.contains_iff_mem.1 hc)
+  · rw [if_neg hc]
+    have hkey : 0 ∉ key := fun hm => hc (List.contains_iff_mem.2 hm)
+    obtain ⟨r, hr1, hr2⟩ := binarySearchBy_spec (headCmp l key) l.pointers (headOrd k strs key)
+      (fun i hi => headCmp_spec h hn key hkey i hi) (headOrd_mono h hs key)
+    simp only [hr1, bind, Out.bind]
+    exact indexOfSortedAfter_spec h hn hlen hs key r hr2
+
+/-- a key containing NUL on a list flagged sorted: `None`, without touching the data -/
+theorem indexOfSorted_nul (l : RCL) (key : List Nat) (hkey : 0 ∈ key) :
+    indexOfSorted l key = .ok none := by
+  rw [indexOfSorted, if_pos (List.contains_iff_mem.2 hkey)]
 
 theorem indexOf_spec (h : Built k strs l) (hn : NulFree strs) (hlen : LenOK strs)
-    (key : List Nat) (hkey : 0 ∉ key ∨ ¬ Sorted strs) :
+    (key : List Nat) :
     ∃ o, indexOf l key = .ok o ∧
       (∀ i, o = some i → ∃ hi : i < strs.length, strs[i] = key) ∧
       (o = none ↔ key ∉ strs) := by
@@ -219,12 +232,7 @@ theorem indexOf_spec (h : Built k strs l) (hn : NulFree strs) (hlen : LenOK strs
   rw [indexOf]
   by_cases hsf : l.isSorted = true
   · rw [if_pos hsf]
-    have hs := hflag.1 hsf
-    have hkey' : 0 ∉ key := by
-      rcases hkey with h' | h'
-      · exact h'
-      · exact absurd hs h'
-    obtain ⟨o, h1, h2, h3⟩ := indexOfSorted_spec h hn hlen hs key hkey'
+    obtain ⟨o, h1, h2, h3⟩ := indexOfSorted_spec h hn hlen (hflag.1 hsf) key
     exact ⟨o, h1, h2, core o h2 h3⟩
   · rw [if_neg hsf, indexOfUnsorted_spec h hn hlen key]
     refine ⟨_, rfl, ?_, firstIdx_none key strs 0⟩
